@@ -1070,6 +1070,28 @@ class Engine:
                     else:
                         outs.append(finish(sp, r))
             return outs
+        m = re.search(r"(hash_map|btree_map)::Entry::<.*>::(or_insert_with|or_insert|or_default)(::<.*>)?$", nm)
+        if m and args:
+            meth = m.group(2)
+            ent = args[0]
+            outs = []
+            po = path.fork()
+            self.assume(po, ("isvar", ent, "Occupied"), True)
+            outs.append(finish(po, ("ref", ("loc", ("app", "entry-value", (ent,)), ()), True)))
+            self.assume(path, ("isvar", ent, "Vacant"), True)
+            if meth == "or_insert_with":
+                rs = self.call_closure(path, bb, args[1], [])
+                if rs is None:
+                    return None
+            else:
+                rs = [((args[1] if meth == "or_insert" else ("app", "Default::default", ())), path)]
+            for r, sp in rs:
+                if r is None:
+                    outs.append(dead(sp))
+                    continue
+                sp.events.append(("entry-insert", bb, ent, r))
+                outs.append(finish(sp, ("ref", ("loc", r, ()), True)))
+            return outs
         m = re.search(r"iter::Iterator>::(try_fold|fold)(::<.*>)?$", nm)
         if m and len(args) == 3:
             meth = m.group(1)
